@@ -97,7 +97,16 @@ func runSlots(sc *Schedule, emit func(vt.Ev)) {
 		for _, n := range names {
 			stripes = append(stripes, latch.VerifStripe(m, km[n]))
 		}
-		g := m.Acquire(realKeys(req, km))
+		var g *latch.Guard
+		got := make(chan struct{})
+		go func() { g = m.Acquire(realKeys(req, km)); close(got) }()
+		select {
+		case <-got:
+		case <-time.After(5 * time.Second):
+			// unsupervised call (no scheduler here): report and stop the sweep
+			emit(vt.Ev{"e": "Hang", "keys": names})
+			return
+		}
 		slots := latch.VerifSlots(g)
 		if slots == nil {
 			slots = []int{}
